@@ -125,6 +125,7 @@ type pathCtx struct {
 	hashes     map[string][]hashRec
 	funcs      map[string][]hashRec
 	decimals   map[*Term]sstr
+	sigs       []sigRec
 	symMaps    map[uintptr]*[]symEntry
 	symMapKeep []map[value]value
 	bech       []bechRec
